@@ -31,5 +31,6 @@ def tables():
     body = (
         f"Definition c17_description_attrs : list string :=\n  {glist(dofc)}.\n"
         f"Definition c17_omit_bounds_props : list string :=\n  {glist(omit)}.\n"
+        f"Definition c17_cf_version : string := {gstr(str(cfdm.CF()))}.\n"
     )
     return {"AppendConstants.v": body}
